@@ -85,10 +85,11 @@ def run(ck):
                             want = T.app("sum", a * b, (-1,)) * T.inv(T.sym("nv"))
                         else:
                             isym = [n for n in t.syms() if n.startswith("i@")]
-                            if len(isym) != 1:
+                            if len(isym) > 1:
                                 ck.undecided("C08.R3", inst + ":pairs", asite, "periodic pairing index list not recognised")
                                 continue
-                            perm = ("advcomp", T.app("mod", T.sym(isym[0]) + c, T.sym("nv")), ("range", T.ZERO, T.sym("nv"), T.ONE))
+                            # (no list of partner sites at all - a rotation of the chain, say - is compared in the gather normal form)
+                            perm = ("advcomp", T.app("mod", T.sym(isym[0] if isym else "i") + c, T.sym("nv")), ("range", T.ZERO, T.sym("nv"), T.ONE))
                             b = T.app("index", x, (("slice", None, None, None), perm))
                             want = T.app("sum", x * b, (-1,)) * T.inv(T.sym("nv"))
                         if t != want:
@@ -520,9 +521,35 @@ def _site_gather_normal(term):
         return p
 
     def fn(a):
+        if isinstance(a, T.App) and a.op == "index" and len(a.args[1]) == 2 and a.args[1][0] == "ellipsis":
+            a = T.App("index", (a.args[0], (("slice", None, None, None), a.args[1][1])))  # for a batch of rows x[..., s] is x[:, s]
         if not (isinstance(a, T.App) and a.op == "index" and len(a.args[1]) == 2 and tuple(a.args[1][0]) == ("slice", None, None, None)):
             return None
         sp = a.args[1][1]
+        base_ = a.args[0]
+        if hasattr(base_, "terms") and base_.single_atom() is None and len(base_.terms) >= 1 and isinstance(sp, tuple) and sp and sp[0] == "slice":
+            # selecting sites commutes with elementwise arithmetic: (x * y)[:, s] = x[:, s] * y[:, s]
+            out = T.ZERO
+            for mono, c_ in base_.terms.items():
+                term_ = T.const(c_)
+                for at_, pw_ in mono:
+                    if isinstance(at_, T.Sym) and at_.name.startswith("lit:"):
+                        term_ = term_ * T.powq(T.P(at_), pw_)
+                    else:
+                        sub = T.app("index", T.P(at_), a.args[1])
+                        term_ = term_ * T.powq(T.subst(sub, fn), pw_)
+                out = out + term_
+            return out
+        ra = base_.single_atom() if hasattr(base_, "single_atom") else None
+        if isinstance(ra, T.App) and ra.op == "roll" and len(ra.args) == 3 and ra.args[2] == -1 and isinstance(sp, tuple) and sp and sp[0] == "slice" and sp[3] in (None, 1) and sp[1] in (None, 0):
+            # roll(x, -k) along the sites puts site (i + k) mod L at position i; the first n positions do not wrap when n <= L - k
+            k_ = ra.args[1]
+            k_ = -(k_ if isinstance(k_, T.Poly) else T.const(k_)) if isinstance(k_, (T.Poly, int)) else None
+            hi = nv if sp[2] is None else as_poly(sp[2])
+            if k_ is not None and hi is not None:
+                hi = nv + hi if neg(hi) else hi
+                el = (i + k_) if (nv - k_ - hi).is_zero() else T.app("mod", i + k_, nv)
+                return T.app("index", ra.args[0], (("slice", None, None, None), ("advcomp", el, ("range", T.ZERO, hi, T.ONE))))
         if isinstance(sp, tuple) and sp and sp[0] == "slice" and sp[3] in (None, 1):
             lo = T.ZERO if sp[1] is None else as_poly(sp[1])
             hi = nv if sp[2] is None else as_poly(sp[2])
